@@ -278,17 +278,60 @@ func (c *c18ctx) registryVar() string {
 	return ""
 }
 
-// the package-level sync.Mutex
-func (c *c18ctx) lockVar() string {
+// the registry lock: the package-level sync.Mutex; when the package has several, the one that is locked by the
+// function which stores into the registry map `reg`
+func (c *c18ctx) lockVar(reg string) string {
+	cands := map[string]bool{}
 	var names []string
 	for n, t := range c.pkgVars {
 		if t == "sync.Mutex" || t == "sync.RWMutex" {
+			cands[n] = true
 			names = append(names, n)
 		}
 	}
 	sort.Strings(names)
 	if len(names) == 1 {
 		return names[0]
+	}
+	used := map[string]bool{}
+	for _, f := range c.x.files(c.dir) {
+		for _, d := range f.Decls {
+			fd, ok := d.(*ast.FuncDecl)
+			if !ok || fd.Body == nil {
+				continue
+			}
+			stores := false
+			var locks []string
+			ast.Inspect(fd.Body, func(n ast.Node) bool {
+				switch v := n.(type) {
+				case *ast.AssignStmt:
+					if len(v.Lhs) == 1 {
+						if ix, ok := v.Lhs[0].(*ast.IndexExpr); ok {
+							if id, ok := ix.X.(*ast.Ident); ok && id.Name == reg {
+								stores = true
+							}
+						}
+					}
+				case *ast.CallExpr:
+					if se, ok := v.Fun.(*ast.SelectorExpr); ok && se.Sel.Name == "Lock" {
+						if id, ok := se.X.(*ast.Ident); ok && cands[id.Name] {
+							locks = append(locks, id.Name)
+						}
+					}
+				}
+				return true
+			})
+			if stores {
+				for _, l := range locks {
+					used[l] = true
+				}
+			}
+		}
+	}
+	if len(used) == 1 {
+		for l := range used {
+			return l
+		}
 	}
 	return ""
 }
@@ -342,12 +385,13 @@ func init() {
 	register("C18", func(x *X) error {
 		x.UseNormalizedAST()
 		px := x.c18context("proxy")
-		reg, lock := px.registryVar(), px.lockVar()
+		reg := px.registryVar()
+		lock := px.lockVar(reg)
 		if reg == "" {
 			x.fail("proxy: no package-level map that is stored into before a .Serve( call (the server registry)")
 		}
 		if lock == "" {
-			x.fail("proxy: expected exactly one package-level sync.Mutex (the registry lock)")
+			x.fail("proxy: no package-level sync.Mutex that is locked where the registry is stored into (the registry lock)")
 		}
 
 		// ---- proxy.Shutdown ----
@@ -404,6 +448,85 @@ func init() {
 				}
 				return true
 			})
+			// websocket sessions: the package-level variable the hijacking handler (the function that calls
+			// .Hijack()) touches is also touched by Shutdown (helpers inlined), inside a goroutine of the same
+			// WaitGroup, with a context.WithTimeout(_, <parameter 0>)
+			hijackVars := map[string]bool{}
+			for _, f := range x.files("proxy") {
+				for _, d := range f.Decls {
+					hfd, ok := d.(*ast.FuncDecl)
+					if !ok || hfd.Body == nil {
+						continue
+					}
+					hijacks := false
+					ast.Inspect(hfd.Body, func(k ast.Node) bool {
+						if ce, ok := k.(*ast.CallExpr); ok {
+							if se, ok := ce.Fun.(*ast.SelectorExpr); ok && se.Sel.Name == "Hijack" {
+								hijacks = true
+							}
+						}
+						return true
+					})
+					if !hijacks {
+						continue
+					}
+					ast.Inspect(hfd.Body, func(k ast.Node) bool {
+						if ce, ok := k.(*ast.CallExpr); ok {
+							if se, ok := ce.Fun.(*ast.SelectorExpr); ok {
+								if id, ok := se.X.(*ast.Ident); ok && id.Obj == nil {
+									if t, ok := px.pkgVars[id.Name]; ok && !strings.Contains(t, "int") {
+										hijackVars[id.Name] = true
+									}
+								}
+							}
+						}
+						return true
+					})
+				}
+			}
+			waitsWS, wsTimeoutIsParam := false, false
+			ast.Inspect(fd.Body, func(k ast.Node) bool {
+				gs, ok := k.(*ast.GoStmt)
+				if !ok {
+					return true
+				}
+				touches, done, ctxOK := false, false, false
+				ctxVar := ""
+				ast.Inspect(gs.Call.Fun, func(j ast.Node) bool {
+					switch v := j.(type) {
+					case *ast.AssignStmt:
+						if len(v.Rhs) == 1 && len(v.Lhs) >= 1 {
+							if c, ok := v.Rhs[0].(*ast.CallExpr); ok && x.src(c.Fun) == "context.WithTimeout" && len(c.Args) == 2 {
+								if id, ok := c.Args[1].(*ast.Ident); ok && id.Name == param && param != "" {
+									ctxOK = true
+								}
+								if id, ok := v.Lhs[0].(*ast.Ident); ok {
+									ctxVar = id.Name
+								}
+							}
+						}
+					case *ast.CallExpr:
+						if se, ok := v.Fun.(*ast.SelectorExpr); ok {
+							if se.Sel.Name == "Done" {
+								done = true
+							}
+							if id, ok := se.X.(*ast.Ident); ok && hijackVars[id.Name] && len(v.Args) == 1 {
+								if a, ok := v.Args[0].(*ast.Ident); ok && a.Name == ctxVar && ctxVar != "" {
+									touches = true
+								}
+							}
+						}
+					}
+					return true
+				})
+				if touches && done {
+					waitsWS = true
+					wsTimeoutIsParam = ctxOK
+				}
+				return true
+			})
+			x.defBool("shutdownWaitsForHijacked", waitsWS)
+			x.defBool("shutdownHijackedTimeoutIsParam", wsTimeoutIsParam)
 			x.defBool("shutdownInstallsEmptyRegistry", resets)
 			x.defBool("shutdownOneTimeoutCtxPerServer", perServer)
 			x.defBool("shutdownTimeoutIsParam", timeoutIsParam)
@@ -464,6 +587,60 @@ func init() {
 				}
 			}
 		}
+		// ---- the way from a ListenAndServe* call to the registration: one bind, nothing waits, nothing retries.
+		// A start that could still be waiting (for its address, for a timer, for a channel) when proxy.Shutdown takes
+		// its snapshot would register afterwards, in the fresh registry, which nothing ever shuts down.
+		waits := func(e string) bool {
+			switch e {
+			case "time.Sleep", "time.After", "time.NewTimer", "time.Tick", "time.NewTicker", "time.AfterFunc", ".Wait":
+				return true
+			}
+			return strings.HasPrefix(e, "<-")
+		}
+		var pathWaits []string
+		listenLoops := false
+		for _, f := range x.files("proxy") {
+			for _, d := range f.Decls {
+				fd, ok := d.(*ast.FuncDecl)
+				if !ok || fd.Body == nil || fd.Recv != nil {
+					continue
+				}
+				isLAS := strings.HasPrefix(fd.Name.Name, "ListenAndServe")
+				isListen := fd.Name.Name == "ListenTCP"
+				if !isLAS && !isListen {
+					continue
+				}
+				for _, e := range px.events(fd) {
+					if e == "store-registry" {
+						break // what follows is the serving itself
+					}
+					if waits(e) {
+						pathWaits = append(pathWaits, fd.Name.Name+":"+e)
+					}
+				}
+				if isListen {
+					// a bind inside a loop or a select is a retry
+					ast.Inspect(fd.Body, func(m ast.Node) bool {
+						switch v := m.(type) {
+						case *ast.ForStmt, *ast.RangeStmt, *ast.SelectStmt:
+							ast.Inspect(v, func(k ast.Node) bool {
+								if ce, ok := k.(*ast.CallExpr); ok {
+									if se, ok := ce.Fun.(*ast.SelectorExpr); ok {
+										if id, ok := se.X.(*ast.Ident); ok && id.Name == "net" && strings.HasPrefix(se.Sel.Name, "Listen") {
+											listenLoops = true
+										}
+									}
+								}
+								return true
+							})
+						}
+						return true
+					})
+				}
+			}
+		}
+		x.defSortedStrList("listenPathWaits", pathWaits)
+		x.defBool("listenBindRetried", listenLoops)
 		x.defStrList("serveEvents", serveEv)
 		x.defSortedStrList("listenAndServeNotRegistering", las)
 		// everything that happens between Lock and Unlock of the registry lock, in any function that takes it
@@ -528,6 +705,67 @@ func init() {
 				}
 			}
 			x.defStrList("exitListenEvents", ev)
+			// every wait for a signal must also watch the channel exit.Exit closes: a receive that is not a case of
+			// a select which has a case receiving from a package-level channel is a wait that Exit/Fatal cannot end
+			commRecv := func(st ast.Stmt) *ast.UnaryExpr {
+				var e ast.Expr
+				switch v := st.(type) {
+				case *ast.ExprStmt:
+					e = v.X
+				case *ast.AssignStmt:
+					if len(v.Rhs) == 1 {
+						e = v.Rhs[0]
+					}
+				}
+				if u, ok := e.(*ast.UnaryExpr); ok && u.Op == token.ARROW {
+					return u
+				}
+				return nil
+			}
+			isPkgChan := func(u *ast.UnaryExpr) bool {
+				id := c18rootIdent(u.X)
+				if id == nil {
+					return false
+				}
+				_, ok := ex.pkgVars[id.Name]
+				return ok
+			}
+			covered := map[*ast.UnaryExpr]bool{}
+			selects := 0
+			ast.Inspect(fd.Body, func(m ast.Node) bool {
+				sel, ok := m.(*ast.SelectStmt)
+				if !ok {
+					return true
+				}
+				var recvs []*ast.UnaryExpr
+				watchesQuit := false
+				for _, cl := range sel.Body.List {
+					if cc, ok := cl.(*ast.CommClause); ok && cc.Comm != nil {
+						if u := commRecv(cc.Comm); u != nil {
+							recvs = append(recvs, u)
+							if isPkgChan(u) {
+								watchesQuit = true
+							}
+						}
+					}
+				}
+				if watchesQuit {
+					selects++
+					for _, u := range recvs {
+						covered[u] = true
+					}
+				}
+				return true
+			})
+			bare := 0
+			ast.Inspect(fd.Body, func(m ast.Node) bool {
+				if u, ok := m.(*ast.UnaryExpr); ok && u.Op == token.ARROW && !covered[u] {
+					bare++
+				}
+				return true
+			})
+			x.defNat("exitListenSelectsWithQuit", uint64(selects))
+			x.defNat("exitListenReceivesWithoutQuit", uint64(bare))
 		}
 		// ---- package main: the exit handler handed to exit.Listen, and the tcp-dynamic refresher ----
 		mx := x.c18context(".")
